@@ -1,7 +1,8 @@
 (** C18 — assembly of the statements used in Properties.v. *)
 From Coq Require Import List Arith ZArith NArith Bool Lia.
 From C33 Require Import C18.Model C18.Spec C18.ProofsSeq C18.ProofsPar C18.ProofsBranch
-  C18.ProofsComp1 C18.ProofsComp2 C18.ProofsBind C18.ProofsMulti C18.ProofsMut C18.ProofsBind2.
+  C18.ProofsComp1 C18.ProofsComp2 C18.ProofsBind C18.ProofsMulti C18.ProofsMut C18.ProofsBind2
+  C18.ModelServe C18.ProofsServe1 C18.ProofsServe2 C18.ProofsServe3.
 Import ListNotations.
 Open Scope nat_scope.
 
@@ -14,6 +15,18 @@ Definition child_roots_verify_thm := child_roots_verify.
 Definition computation_root_thm := computation_root.
 Definition branch_is_tree_branch_thm := branch_is_tree_branch.
 Definition branch_verifies_thm := branch_verifies.
+Lemma transaction_sort_sorted_thm : forall (T : Type) (l : list (btx T)),
+  tsorted (map bt_title (transaction_sort T l)) = true /\
+  (tsorted (map bt_title l) = true -> transaction_sort T l = l).
+Proof. intros T l. split; [apply sort_is_sorted|apply sorted_sort_id]. Qed.
+Definition served_verify_partial_thm := served_verify_partial.
+Definition produced_verify_thm := produced_verify.
+Definition served_binding_thm := served_binding.
+Definition served_block_binding_thm := served_block_binding.
+Definition served_verify_full_claim := served_verify_full.
+Definition served_verify_refuted_thm := served_verify_refuted.
+Definition example_served_thm := example_served.
+Definition h_eqb_ok_thm := h_eqb_ok.
 
 Lemma example_duptail :
   let l1 := map Leaf [1; 2; 3; 4; 5; 6]%N in
